@@ -28,6 +28,8 @@ type c14Case struct {
 	Pieces   []int
 	Pause    time.Duration
 	Extra    []hfield
+	Interim  bool
+	CEnc     string
 }
 
 const bannerHTML = `<b id="bnr">BANNER-7f3a</b>`
@@ -102,6 +104,12 @@ func genC14(t *sim.Tape, i int) *c14Case {
 	}
 	c.Pause = []time.Duration{0, time.Millisecond, 150 * time.Millisecond}[t.Choice(3, "pause")]
 	c.Extra = []hfield{{"X-Custom", "keep-me"}, {"Set-Cookie", "a=1"}, {"Set-Cookie", "b=2"}}
+	c.Interim = t.Rare(1, 5, "interim")
+	// the body may be declared as encoded (the bytes are opaque to the agent)
+	c.CEnc = []string{"", "", "", "gzip", "br"}[t.Choice(5, "cenc")]
+	if c.CEnc != "" {
+		c.Extra = append(c.Extra, hfield{"Content-Encoding", c.CEnc})
+	}
 	if t.Rare(1, 3, "cachehdr") {
 		c.Extra = append(c.Extra, hfield{"Cache-Control", "max-age=3600"}, hfield{"X-Frame-Options", "DENY"})
 	}
@@ -137,6 +145,12 @@ func worldC14(w *World) {
 		}
 		cs := cases[idx]
 		var b bytes.Buffer
+		if cs.Interim {
+			fmt.Fprintf(c, "HTTP/1.1 103 Early Hints\r\nLink: </style.css>; rel=preload\r\n\r\n")
+			if cs.Pause > 0 {
+				time.Sleep(cs.Pause)
+			}
+		}
 		fmt.Fprintf(&b, "HTTP/1.1 %d X\r\n", cs.Status)
 		if cs.CType != "" {
 			fmt.Fprintf(&b, "Content-Type: %s\r\n", cs.CType)
@@ -239,8 +253,11 @@ func worldC14(w *World) {
 			m := r.msg
 			var code int
 			fmt.Sscanf(m.StartLine, "HTTP/1.1 %d", &code)
+			if cs.Interim {
+				w.Probe("interim_1xx")
+			}
 			if code != cs.Status {
-				w.Violation("status", "status changed | backend %d client %d", cs.Status, code)
+				w.Violation("status", "status changed | backend %d client %d (interim 1xx before it: %v)", cs.Status, code, cs.Interim)
 				continue
 			}
 			recv := fieldLists(m.Fields)
@@ -248,7 +265,14 @@ func worldC14(w *World) {
 			withScript, scriptOK := splitScript(cs.Body, m.Body)
 			switch {
 			case bytes.Equal(m.Body, cs.Body):
-				// unaltered body
+				// unaltered body: it is only the original if it is still declared
+				// to be encoded the way the backend encoded it
+				if ce := strings.Join(recv["content-encoding"], ","); ce != cs.CEnc {
+					w.Violation("header", "the original body was passed on but its Content-Encoding was changed | backend %q client %q (%s accept=%q dest=%q mode=%q -> %d %q)", cs.CEnc, ce, cs.Method, cs.Accept, cs.FetchDst, cs.FetchMod, cs.Status, cs.CType)
+				}
+				if cs.CEnc != "" {
+					w.Probe("encoded_body_passed_through")
+				}
 			case withScript:
 				w.Probe("shim_script_injected")
 				if !shim {
